@@ -131,12 +131,21 @@ def _build(run, ctor, ents, allow_incomplete, tag, page_size=None, noise=False, 
             return MC.MosCollection.from_strings([e['data'] for e in ents], allow_incomplete=allow_incomplete), None
         # s3: the supply order is the bucket's listing order
         prefix = 'batch-%s/' % tag
+        if slots:
+            # the same prefix and key names are re-used for every collection (a spool prefix)
+            prefix = 'spool/'
+            b = run.s3.buckets.setdefault(run.bucket, {})
+            for k in [k for k in b if k.startswith(prefix)]:
+                del b[k]
+            for i, e in enumerate(ents):
+                run.s3.put(run.bucket, prefix + 'slot-%02d.mos.xml' % i, e['data'])
+            ents = []
         for e in ents:
             run.s3.put(run.bucket, prefix + e['key'], e['data'])
         if noise:
             run.s3.put(run.bucket, prefix + 'readme.txt', b'not a mos file')
             run.s3.put(run.bucket, prefix + '0-backup.mos.xml.bak', b'<mos/>')
-            run.s3.put(run.bucket, 'batch-%s-other/9-x.mos.xml' % tag, ents[0]['data'] if ents else b'<mos/>')
+            run.s3.put(run.bucket, 'batch-%s-other/9-x.mos.xml' % tag, b'<mos/>')
         old = run.s3.page_size
         if page_size:
             run.s3.page_size = page_size
@@ -272,6 +281,17 @@ def do_batch(run, step):
         run.probes['>=3-failing-in-one-merge'] += 1
     exc_m, n_nsw = _merge(mc, strict)
     final = str(mc)
+    try:
+        from xml.etree import ElementTree as _ET
+        from .xmlmodel import canon_et as _ce, RoView as _RV, child_text as _ct
+        _v = _RV(_ce(_ET.fromstring(final)))
+        if mc.completed != bool(_v.metas):
+            add('C07.flag', 'collection.completed is %r, the merged running order %s a completion record' % (mc.completed, 'holds' if _v.metas else 'holds no'))
+        if (mc.ro_id, mc.ro_slug) != (_ct(_v.rc, 'roID'), _ct(_v.rc, 'roSlug')):
+            add('C15.accessor', 'collection.ro_id / ro_slug %r differ from the merged running order' % ((mc.ro_id, mc.ro_slug),))
+        repr(mc)
+    except Exception as e:    # noqa
+        add('C15.accessor', 'reading the merged collection raised %s: %s' % (type(e).__name__, e))
     merged_elem_warnings = list(_merge.elem_warnings)
     fold_elem_warnings = list(_fold.elem_warnings)
     run.stats['batch.merged'] += 1
@@ -413,6 +433,19 @@ def do_listing(run, step):
     finally:
         run.s3.page_size = old
         run.s3.list_fault_page = None
+    if exc is None and got is not None and run.s3.fired['list_error'] == fired0:
+        # the bucket changes; a second listing must see it
+        extra_key = (prefix or '') + 'zz-late-arrival' + want_suffix
+        run.s3.put(bucket, extra_key, b'<mos/>')
+        run.s3.page_size = step['page_size']
+        try:
+            got2 = S3M.get_mos_files(bucket, prefix, **kw)
+            if sorted(got2) != sorted(want + [extra_key]):
+                run.add('C18.listing', 'a second listing after a new key arrived returned %r' % (got2,), None, {'second': True})
+        except Exception as e:    # noqa
+            run.add('C18.listing', 'second listing raised %s' % type(e).__name__, None, {'second': True})
+        finally:
+            run.s3.page_size = old
     pages = (len([k for k in all_keys if k.startswith(prefix or '')]) + step['page_size'] - 1) // step['page_size']
     run.cov.add(('listing', min(pages, 4), len(want) > 0, suffix, prefix is None, prefix == ''))
     if pages >= 3:
